@@ -130,6 +130,7 @@ fn main() {
         "read_n" => cluster::read_n(&args),
         "reader_actor" => cluster::reader_actor(&args),
         "frame_limit" => cluster::frame_limit(&args),
+        "write_backlog" => cluster::write_backlog(&args),
         other => {
             eprintln!("unknown scenario {other}");
             std::process::exit(3);
